@@ -1,6 +1,6 @@
 """C10 - Interrupts are priority-gated and transparent to the interrupted program (gating, entry
 sequence and the push/pop pairing; the transparency consequence over schedules is not decided)."""
-from lib import simx, tables, panics
+from lib import simx, tables, panics, nf
 from lib.panics import _unwrap_var, interval
 import C06
 
@@ -43,22 +43,16 @@ def run(ck, ctx):
     detail = ""
     if len(his) == 1:
         bi, t = his[0]
-        v = _unwrap_var(b.expr_of_operand(t["args"][1], 20))
-        # 0x100 + u16::from(vect)
-        if v[0] == "field" and v[1][0] == "bin" and v[1][1] == "AddWithOverflow":
-            base = interval(v[1][2])
-            rhs = _unwrap_var(v[1][3])
-            vec_ok = base == (SPEC["vectors"]["interrupt_base"],) * 2 and rhs[0] == "call" and (rhs[1] or "").endswith("From<u8> for u16>::from") and "'vect'" in repr(rhs)
-        pr = _unwrap_var(b.expr_of_operand(t["args"][2], 20))
-        some_p = pr[0] == "agg" and pr[2][1] == "Some" and "'priority'" in repr(pr[3])
-        for d in sorted(b.dominators().get(bi, ())):
-            tt = b.blocks[d]["term"]
-            if tt["k"] == "switch":
-                e = _unwrap_var(b.expr_of_operand(tt["discr"], 20))
-                if e[0] == "bin" and e[1] == "Gt" and "'priority'" in repr(e[2]) and "PSR::priority" in repr(e[3]) and b.dominates(tt["otherwise"], bi) and all(tb != tt["otherwise"] for _, tb in tt["values"]):
-                    gate_ok = some_p
-        detail = "vector expr ok=%s, Some(priority)=%s" % (vec_ok, some_p)
-    ck.ob("C10.2", "gate", gate_ok, "handle_interrupt for a device interrupt is reached only on the edge priority > psr.priority() (%s)" % detail, "src/sim.rs")
+        # name-independent: arguments and complete path condition of the call, in normal form
+        POLL = "poll_interrupt(arg1.device_handler) as Some.0.kind"
+        a_vec, a_pri = nf.arg_x(b, t, 1, bi), nf.arg_x(b, t, 2, bi)
+        vec_ok = a_vec == "Add((%s as Vectored.vect as u16), %d)" % (POLL, SPEC["vectors"]["interrupt_base"])
+        some_p = a_pri == "Option::Some(%s as Vectored.priority)" % POLL
+        pcs = nf.path_conditions(b, bi, lambda x: "poll_interrupt(" in x and "branch(" not in x)
+        want_pc = {("Lt(PSR::priority(Simulator::psr(arg1)), %s as Vectored.priority)" % POLL, "1"), ("discr(%s)" % POLL, "0"), ("discr(poll_interrupt(arg1.device_handler))", "1")}
+        gate_ok = some_p and pcs is not None and [set(pc) for pc in pcs] == [want_pc]
+        detail = "vector %s, priority argument %s, path condition %s" % (a_vec, a_pri, sorted(sorted(pc) for pc in (pcs or [])))
+    ck.ob("C10.2", "gate", gate_ok, "handle_interrupt for a device interrupt is reached exactly when a vectored interrupt is pending and psr.priority() < its priority (%s)" % detail, "src/sim.rs")
     ck.ob("C10.6", "vector-base", vec_ok, "interrupt vector = x0100 + u16::from(vect)", "src/sim.rs")
     ext = False
     for bi, si, s in b.stmts():
